@@ -77,7 +77,16 @@ type atomH struct {
 	random  bool        // in the random stream known triggers are steered away from
 	slashOK []atomSlash // accepted slashes (operator, id) of this history
 	dels    [][3]int    // (staker index, asset kind, operator index) of accepted delegations
+	orng    *RNG        // dom_atomic_oracle.go: RNG of the oracle entry points (separate stream)
+	oSent   map[string]int32
 }
+
+// further directed histories (each on a freshly booted chain) and per-step extras, registered from
+// init() by dom_atomic_<topic>.go files
+var (
+	atomExtraDirected []func(h *atomH)
+	atomExtraStep     []func(h *atomH)
+)
 
 func (h *atomH) ctxFix() { h.c.Ctx = h.c.Ctx.WithLogger(capLogger{last: &h.lastErr}) }
 
@@ -896,6 +905,7 @@ func (h *atomH) boot(seed uint64) {
 	h.ctxFix()
 	h.abis = xbLoadABIs(h.c)
 	h.stakers, h.others, h.dels, h.slashOK = nil, nil, nil, nil
+	h.orng, h.oSent = nil, nil
 	for i := 0; i < 3; i++ {
 		h.stakers = append(h.stakers, NewActor(seed, "staker", i))
 	}
@@ -922,12 +932,21 @@ func domAtomic(env *Env) error {
 	steps := env.Int("steps", 150)
 	env.Report.Domain = "atomic"
 	xbDebug = env.Str("debug", "") == "2"
+	// the snapshot around failing calls also covers the oracle's aggregator context (dom_atomic_oracle.go)
+	xbMemAgc = true
+	defer func() { xbMemAgc = false }()
 	h := &atomH{env: env, rng: NewRNG(env.Report.Seed*7919 + 17), seen: map[string]bool{}}
 	// history 0: the directed scenarios
 	h.boot(env.Report.Seed*1000 + 999)
 	h.directed()
 	env.Report.Histories++
 	env.Sample(strings.Join(h.hist[:min(len(h.hist), 8)], " ; "))
+	// further directed histories, each on a fresh chain
+	for i, f := range atomExtraDirected {
+		h.boot(env.Report.Seed*1000 + 998 - uint64(i))
+		f(h)
+		env.Report.Histories++
+	}
 	for hi := 0; hi < n; hi++ {
 		h.boot(env.Report.Seed*1000 + uint64(hi))
 		h.random = true
@@ -938,6 +957,9 @@ func domAtomic(env *Env) error {
 		h.prepareOpX()
 		for i := 0; i < steps; i++ {
 			h.step()
+			for _, f := range atomExtraStep {
+				f(h)
+			}
 		}
 		env.Report.Histories++
 		if hi == 0 {
